@@ -374,7 +374,8 @@ func zunionstoreKeyFunc(cmd []string) (internal.KeyExtractionFuncResult, error) 
 			WriteKeys: cmd[1:2],
 		}, nil
 	}
-	if endIdx >= 1 {
+	// endIdx counts from cmd[1]: the destination is at 0, so the first option needs at least one source key before it
+	if endIdx >= 2 {
 		return internal.KeyExtractionFuncResult{
 			Channels:  make([]string, 0),
 			ReadKeys:  cmd[2 : endIdx+1],
